@@ -450,3 +450,25 @@ Example C09_float_decided_examples :
   arb_float_decide (ex_decl (FFloat false) [] [VGreaterOrEqual (BLit 1115684864); VLess (BLit 1115815936)]) = AVPanicsOn [255; 255; 255; 255] /\
   arb_float_decide (ex_decl (FFloat false) [] [VFinite; VLessOrEqual (BLit 4284688930)]) = AVUnknown.
 Proof. vm_compute. auto. Qed.
+
+(* --- strings: the same packaging — one decision procedure over all shapes ------------------------
+   Total (no case sanitizer, or a case sanitizer without len_char_max) is a theorem about every byte
+   string; PanicsOn names the failing input of the recorded class str_case_sanitizer_with_len_char_max
+   for EVERY len_char_max between 1 and 2^64 - 1: mx copies of U+00DF (uppercase) / U+0130 (lowercase)
+   behind the bytes that make int_in_range pick the largest length. *)
+From NV Require Import Sem.ArbStrDecide Lemmas.ArbStrDecideLemmas.
+
+Theorem C09_str_decided_total :
+  forall (lib : fnlib), unicode_lib lib ->
+  forall (d : decl) (bs : bytes),
+    arb_str_decide d = SVTotal -> bytes_ok bs = true ->
+    exists v, arb_str lib d bs = OOk v /\ spec_valid lib d v = true.
+Proof. exact arb_str_decide_total_sound. Qed.
+Print Assumptions C09_str_decided_total.
+
+Theorem C09_str_decided_panics :
+  forall (lib : fnlib), unicode_lib lib ->
+  forall (d : decl) (bs : bytes),
+    arb_str_decide d = SVPanicsOn bs -> arb_str lib d bs = OPanic /\ bytes_ok bs = true.
+Proof. exact arb_str_decide_panics_sound. Qed.
+Print Assumptions C09_str_decided_panics.
